@@ -368,6 +368,96 @@ fn histories_over(run: &Run, st: &mut Stats, menu: &[(&str, usize, Mode)], pats:
     }
 }
 
+/// (3c) histories over several Regex objects (process-wide state written by one regex's search and trusted
+/// by another's): every sequence of 1-3 steps from a menu of (regex, haystack) pairs whose regexes differ in
+/// mode, executed in order on one thread, and the same with the first step's iterator kept alive and
+/// resumed after the later steps. Oracle: each step's result on a fresh process-state-free reference, i.e.
+/// the reference matcher.
+fn cross_regex_histories(run: &Run, st: &mut Stats) {
+    let menu: Vec<(&str, &str, &str)> = vec![
+        ("(\\u017f)\\1", "iu", "\u{17f}s \u{17f}\u{17f}"),
+        ("(\\u017f)\\1", "i", "\u{17f}s \u{17f}\u{17f}"),
+        ("(k)\\1", "iu", "k\u{212A} kK"),
+        ("(k)\\1", "i", "k\u{212A} kK"),
+        ("x", "", "xyz x"),
+        ("\\bs\\b", "iu", "\u{17f} s"),
+        ("\\bs\\b", "i", "\u{17f} s"),
+        ("[a-z]+", "iv", "K\u{212A}k"),
+        ("(.)\\1", "is", "aA\u{10428}\u{10400}"),
+    ];
+    let compiled: Vec<regress::Regex> = menu.iter().map(|(p, f, _)| regress::Regex::with_flags(p, *f).unwrap()).collect();
+    let expected: Vec<Vec<SMatch>> = menu
+        .iter()
+        .map(|(p, f, h)| {
+            let pat: Vec<u32> = p.chars().map(|c| c as u32).collect();
+            let fl = crate::ast::Flags::parse(f);
+            let ast = crate::refparse::parse(&pat, fl).expect("menu pattern parses");
+            let prog = crate::refmatch::compile(&ast, fl).expect("menu pattern in the reference");
+            let hay = crate::enumerate::Hay::new(h.chars().map(|c| c as u32).collect());
+            crate::sweep::ref_table(&prog, &hay, 5_000_000).all_from(0, &hay)
+        })
+        .collect();
+    let n = menu.len();
+    let mut report = |st: &mut Stats, hist: &[usize], pos: usize, live: bool, got: &Vec<SMatch>| {
+        let qi = hist[pos];
+        let case = J::obj()
+            .set("kind", J::s("cross_regex_history"))
+            .set("history", J::Arr(hist.iter().map(|&i| J::s(&format!("/{}/{} on {:?}", menu[i].0, menu[i].1, menu[i].2))).collect()))
+            .set("position", J::u(pos as u64))
+            .set("first_step_iterator_kept_alive", J::Bool(live))
+            .set("what", J::s("a search's result depends on searches made with other Regex objects"))
+            .set("expected", crate::sweep::seq_json(&expected[qi]))
+            .set("got", crate::sweep::seq_json(got));
+        st.violation(&run.known, "C19", if live { "result depends on other regexes' searches (iterator alive across them)" } else { "result depends on other regexes' searches" }, hist.len() * 10, case);
+    };
+    for a in 0..n {
+        for b in 0..=n {
+            for c in 0..=n {
+                if b == n && c != n {
+                    continue;
+                }
+                let hist: Vec<usize> = [Some(a), if b < n { Some(b) } else { None }, if c < n { Some(c) } else { None }].into_iter().flatten().collect();
+                st.add("evaluations", 2);
+                st.add("validated", 2);
+                st.add("cross_regex_histories", 2);
+                st.add("nontrivial", 2);
+                // in order
+                for (pos, &qi) in hist.iter().enumerate() {
+                    let got: Vec<SMatch> = match subject::guarded(10_000_000, || compiled[qi].find_iter(menu[qi].2).map(|m| SMatch::from(&m)).collect::<Vec<SMatch>>()) {
+                        subject::Outcome::Ok(v) => v,
+                        _ => vec![SMatch { start: usize::MAX, end: 0, caps: vec![] }],
+                    };
+                    if got != expected[qi] {
+                        report(st, &hist, pos, false, &got);
+                    }
+                }
+                // first step's iterator kept alive: take its first match, run the other steps, then drain it
+                if hist.len() > 1 {
+                    let got0 = subject::guarded(10_000_000, || {
+                        let mut it = compiled[hist[0]].find_iter(menu[hist[0]].2);
+                        let mut out: Vec<SMatch> = Vec::new();
+                        if let Some(m) = it.next() {
+                            out.push(SMatch::from(&m));
+                        }
+                        for &qi in &hist[1..] {
+                            let _ = compiled[qi].find_iter(menu[qi].2).count();
+                        }
+                        out.extend(it.map(|m| SMatch::from(&m)));
+                        out
+                    });
+                    let got0 = match got0 {
+                        subject::Outcome::Ok(v) => v,
+                        _ => vec![SMatch { start: usize::MAX, end: 0, caps: vec![] }],
+                    };
+                    if got0 != expected[hist[0]] {
+                        report(st, &hist, 0, true, &got0);
+                    }
+                }
+            }
+        }
+    }
+}
+
 /// (3b) histories that reuse one buffer: the same allocation is refilled in place between two
 /// searches with the same Regex (an address-keyed cache in the program would answer from memory).
 fn buffer_reuse_histories(run: &Run, st: &mut Stats) {
@@ -418,7 +508,7 @@ fn buffer_reuse_histories(run: &Run, st: &mut Stats) {
 /// can see races inside one interpreted instruction (e.g. lazy initialisation on first use), which
 /// the instruction-granularity scheduler cannot produce. A silent run proves nothing.
 fn free_running_monitor(run: &Run, st: &mut Stats, trials: usize) {
-    let cases = [("\\{[^}]*\\}", "", "{x} and {y} now"), ("[a-zé]+", "", "café au lait"), ("(a+)+b", "", "aaab aab"), ("\\bk\\w*", "iu", "Kelvin \u{212A}k k"), ("(?<=\\d)x|y$", "m", "1x2x\ny")];
+    let cases = [("^\\p{Lu}+$", "u", "HELLOWORLDhELLOWORLD"), ("^\\p{Lu}+$", "u", "ΑΒΓΔΕΖΗΘHELLO"), ("^[\\p{Lu}\\p{Nd}]+$", "u", "ΑΒΓΔoΖΗΘ"), ("\\{[^}]*\\}", "", "{x} and {y} now"), ("[a-zé]+", "", "café au lait"), ("(a+)+b", "", "aaab aab"), ("\\bk\\w*", "iu", "Kelvin \u{212A}k k"), ("(?<=\\d)x|y$", "m", "1x2x\ny")];
     for (p, f, h) in cases {
         let expected: Vec<SMatch> = regress::Regex::with_flags(p, f).unwrap().find_iter(h).map(|m| SMatch::from(&m)).collect();
         let mut wrong = 0u64;
@@ -482,12 +572,13 @@ pub fn c19(run: &mut Run) -> Stats {
     }
     histories(run, &mut st);
     buffer_reuse_histories(run, &mut st);
+    cross_regex_histories(run, &mut st);
     free_running_monitor(run, &mut st, if thorough { 3000 } else { 400 });
     if st.get("scenarios_capped") > 0 {
         run.caps.push(format!("{} scenarios stopped at the cap of {} schedules (explored depth-first in preemption order)", st.get("scenarios_capped"), max_schedules));
     }
     run.rule = format!(
-        "(1) compile-time: Regex, Match, Error are Send + Sync (tools/sendsync is type-checked first; a failure there is reported as the violation); (2) {} scenarios (8 regexes exercising nested loops, captures, lookaround with saved stack, 1-char loops, backreferences, both executors and the ASCII entry point) x threads on one shared &Regex or on clones: every schedule with at most {} preemption(s), scheduling points = every interpreted instruction / backtrack pop (hook H1), real OS threads under a baton; oracle = sequential result on a fresh compile and an unchanged program fingerprint; (3) every ordered history of 1-3 queries from a 12-query menu on one Regex x 8 regexes, the same over a 12-query menu of case-insensitive backreference queries whose characters alias under truncation or fold across planes x 3 regexes, and every history of three texts written into one reused buffer (same allocation) plus an in-place edit, 6 regexes x 6^3 texts; (4) a free-running monitor (NOT exhaustive, labelled): four threads released from a barrier on a freshly compiled Regex, a few hundred trials, for races inside one instruction; non-trivial = the schedule really overlaps two threads inside the program / the query matches",
+        "(1) compile-time: Regex, Match, Error are Send + Sync (tools/sendsync is type-checked first; a failure there is reported as the violation); (2) {} scenarios (8 regexes exercising nested loops, captures, lookaround with saved stack, 1-char loops, backreferences, both executors and the ASCII entry point) x threads on one shared &Regex or on clones: every schedule with at most {} preemption(s), scheduling points = every interpreted instruction / backtrack pop (hook H1), real OS threads under a baton; oracle = sequential result on a fresh compile and an unchanged program fingerprint; (3) every ordered history of 1-3 steps over a menu of 9 (regex, haystack) pairs whose regexes differ in mode (process-wide state written by one regex's search and trusted by another's), in order and with the first step's iterator kept alive across the others, against the reference matcher; every ordered history of 1-3 queries from a 12-query menu on one Regex x 8 regexes, the same over a 12-query menu of case-insensitive backreference queries whose characters alias under truncation or fold across planes x 3 regexes, and every history of three texts written into one reused buffer (same allocation) plus an in-place edit, 6 regexes x 6^3 texts; (4) a free-running monitor (NOT exhaustive, labelled): four threads released from a barrier on a freshly compiled Regex, a few hundred trials, for races inside one instruction; non-trivial = the schedule really overlaps two threads inside the program / the query matches",
         scs.len(),
         bound
     );
